@@ -341,7 +341,7 @@ def _execute(ctx, h, scratch):
                 # device-metrics tables of rasteriser-tuned TrueType fonts (no corpus font has them)
                 rr = prng.sub("fdev", fg["dev"])
                 ng_ = struct.unpack_from(">H", tabs["maxp"], 4)[0]
-                for t, mk in (("VDMX", lambda: foreign.vdmx(rr)), ("hdmx", lambda: foreign.hdmx(ng_, rr)), ("LTSH", lambda: foreign.ltsh(ng_, rr))):
+                for t, mk in (("VDMX", lambda: foreign.vdmx(rr)), ("hdmx", lambda: foreign.hdmx(ng_, rr)), ("LTSH", lambda: foreign.ltsh(ng_, rr)), ("VORG", lambda: foreign.vorg(ng_, rr))):
                     if t not in tabs and rr.random() < 0.7:
                         tabs[t] = mk()
                         foreign_tags.append(t)
